@@ -92,7 +92,7 @@ func (d *c12Dom) featurePackets(full bool) []*c12Pkt {
 		add("udp-53-to-wl2", func(p *c12Pkt) { p.Proto = 17; p.DPort = 53; p.Dst = d.a["wl2"] })
 		add("udp-80", func(p *c12Pkt) { p.Proto = 17; p.DPort = 80 })
 	}
-	return out
+	return d.prep(out)
 }
 
 // structurePackets: every combination of "tcp-dport-80 matches" x "src-ipset matches", plus a UDP probe.
@@ -100,17 +100,28 @@ func (d *c12Dom) structurePackets() []*c12Pkt {
 	mk := func(name, src string, proto, dport int) *c12Pkt {
 		return &c12Pkt{Name: name, Src: d.a[src], Dst: d.a["wl"], Proto: proto, SPort: 1000, DPort: dport}
 	}
-	return []*c12Pkt{
+	return d.prep([]*c12Pkt{
 		mk("A1B1", "srcBase", 6, 80),
 		mk("A1B0", "srcOut8", 6, 80),
 		mk("A0B1", "srcBase", 6, 81),
 		mk("A0B0", "srcOut8", 6, 81),
 		mk("udp-A0B1", "srcOther", 17, 80),
-	}
+	})
 }
 
 // bitPackets: every assignment of the bits in `used` (bit i = matcher "bit<i>" matches); unused bits are 0.
+var (
+	c12BitPktMu    sync.Mutex
+	c12BitPktCache = map[string][]*c12Pkt{}
+)
+
 func (d *c12Dom) bitPackets(used []int) []*c12Pkt {
+	key := fmt.Sprint(d.ver, used)
+	c12BitPktMu.Lock()
+	defer c12BitPktMu.Unlock()
+	if l := c12BitPktCache[key]; l != nil {
+		return l
+	}
 	var out []*c12Pkt
 	n := len(used)
 	for m := 0; m < 1<<n; m++ {
@@ -158,6 +169,7 @@ func (d *c12Dom) bitPackets(used []int) []*c12Pkt {
 		p.Name = "bits-" + name
 		out = append(out, p)
 	}
+	c12BitPktCache[key] = d.prep(out)
 	return out
 }
 
@@ -232,12 +244,13 @@ type c12Worker struct {
 }
 
 type c12Check struct {
-	c        *vk.Ctx
-	lay      map[int]*ebpf.Layout
-	sampled  int32
-	outMu    sync.Mutex
-	outcomes map[string]int64
-	stop     int32
+	c            *vk.Ctx
+	lay          map[int]*ebpf.Layout
+	sampled      int32
+	sampledLevel [3]int32
+	outMu        sync.Mutex
+	outcomes     map[string]int64
+	stop         int32
 }
 
 func (k *c12Check) flushOutcomes(local map[string]int64) {
@@ -267,10 +280,10 @@ func (k *c12Check) newWorker() (*c12Worker, error) {
 func c12StructClass(s *c12State, ref refpol.Verdict) string {
 	cl := ref.Reason.String()
 	if ref.Decision == refpol.Undecided {
-		cl = "unspecified"
 		if strings.Contains(ref.Note, "pass rule matched in profile") {
-			cl = "profile-pass-rule"
+			return "profile-pass-rule"
 		}
+		return "rule-meaning-unspecified"
 	}
 	for _, t := range s.Tiers {
 		if t.Default == "" {
@@ -350,7 +363,7 @@ func (k *c12Check) runCase(w *c12Worker, cs *c12Case) bool {
 	}
 	marks := []uint32{c12MarkForeign, c12MarkForeign | c12MarkAccept | c12MarkPass | c12MarkScratch0 | c12MarkScratch1}
 	sawAllow, sawDeny := false, false
-	var nExec, nPkts, nAppNoEval, nAppNone, nRefUndecided int64
+	var nExec, nPkts, nAppNoEval, nAppNone, nRefUndecided, nSilent int64
 	outs := map[string]int64{}
 	defer func() {
 		k.flushOutcomes(outs)
@@ -359,10 +372,16 @@ func (k *c12Check) runCase(w *c12Worker, cs *c12Case) bool {
 		c.Add("app_evaluate_returned_error", nAppNoEval)
 		c.Add("packets_without_app_verdict", nAppNone)
 		c.Add("reference_undecided_but_all_agree", nRefUndecided)
+		c.Add("disagreements_where_the_rule_meaning_is_unspecified", nSilent)
 	}()
 	for _, p := range cs.pkts {
-		rp := d.refPacket(p)
-		np := d.nfPacket(p, cs.State.Dir)
+		if p.ref == nil {
+			d.prep([]*c12Pkt{p})
+		}
+		rp, np := p.ref, p.nfOut
+		if cs.State.Dir == "ingress" {
+			np = p.nfIn
+		}
 		ref := refpol.EndpointVerdict(msgs.ref, rp, refpol.Options{})
 		var v c12Verdicts
 		v.Ref, v.RefReason = ref.Decision.String(), ref.Reason.String()
@@ -454,13 +473,22 @@ func (k *c12Check) runCase(w *c12Worker, cs *c12Case) bool {
 		} else if all[0] == "deny" {
 			sawDeny = true
 		}
+		if bad != "" && sc == "rule-meaning-unspecified" {
+			// The rule model does not say whether the rule matches this packet (the reference answers
+			// "unspecified", e.g. a negated CIDR list holding only CIDRs of the other IP version = the rule's
+			// implicit IP version, a notion app-policy does not have): outside "rules all of them support".
+			nSilent++
+			outs[fmt.Sprintf("STATEMENT-SILENT/%s/%s/%s", cs.Level, class, v.vector())]++
+			continue
+		}
 		if bad == "" {
 			if ref.Decision == refpol.Undecided {
 				nRefUndecided++
 			}
 			outs[cs.Level+"/"+class+"/all="+all[0]+"/ref="+v.Ref]++
-			if atomic.LoadInt32(&k.sampled) < 8 && (cs.Level != "A" || p.Name != "base") && msgs.nRules >= 2 {
-				if atomic.AddInt32(&k.sampled, 1) <= 8 {
+			if atomic.LoadInt32(&k.sampled) < 9 && msgs.nRules >= 2 && len(cs.State.Tiers)+len(cs.State.Profiles) >= 2 && p == cs.pkts[len(cs.pkts)/2] &&
+				atomic.AddInt32(&k.sampledLevel[cs.Level[0]-'A'], 1) <= 3 {
+				if atomic.AddInt32(&k.sampled, 1) <= 9 {
 					c.Sample(map[string]any{"level": cs.Level, "state": sig, "packet": p.String(), "verdicts": v.vector(), "reference": v.Ref + " by " + v.RefReason})
 				}
 			}
@@ -501,8 +529,12 @@ func (k *c12Check) levelA(emit func(*c12Case)) {
 			if fam == "bits" {
 				continue
 			}
+			// IP-version-sensitive families are repeated for IPv6 in the quick tier, everything in the thorough tier
+			if ver == 6 && !full && fam != "nets" && fam != "nets-mixed-version" && fam != "nets-negated-other-version-only" && fam != "ipsets" && fam != "ipsets-member-prefix-25-31" && fam != "named-ports" && fam != "protocol" {
+				continue
+			}
 			for _, act := range []string{"allow", "deny", "pass", "next-tier", "log"} {
-				if act == "next-tier" && !full && fam != "all" {
+				if (act == "next-tier" || act == "log") && !full && fam != "all" && name != "tcp-dport-80" {
 					continue
 				}
 				r := c12Rule{M: name, A: act}
@@ -522,9 +554,17 @@ func (k *c12Check) levelA(emit func(*c12Case)) {
 					{"profile", c12State{Profiles: [][]c12Rule{{r}, {allowAll}}}},
 					{"profile-last", c12State{Profiles: [][]c12Rule{{r, denyAll}}}},
 				}
-				for _, cx := range ctxs {
+				for ci, cx := range ctxs {
+					if !full && (ci == 2 || ci == 4) && fam != "all" && name != "tcp-dport-80" {
+						continue
+					}
+					if ci >= 3 && (act == "pass" || act == "next-tier") && fam != "all" && name != "tcp-dport-80" {
+						// a pass rule inside a profile is a structural matter (levels A "all", B): keep the
+						// per-feature keys free of it
+						continue
+					}
 					dirs := []string{"ingress", "egress"}
-					if ver == 6 && !full {
+					if !full && (ver == 6 || ci > 0) {
 						dirs = []string{"ingress"}
 					}
 					for _, dir := range dirs {
@@ -540,7 +580,7 @@ func (k *c12Check) levelA(emit func(*c12Case)) {
 
 // Level B: every state with <= maxTiers tiers x <= 2 policies x <= 2 rules and <= 2 profiles x <= 2 rules whose TOTAL
 // number of rules is <= budget, over the rule alphabet sigma.
-func c12SmallStates(sigma []c12Rule, budget int, defaults func(nTiers int) []string, emit func(c12State)) {
+func c12SmallStates(sigma []c12Rule, budget, maxPolicies int, defaults func(nTiers int) []string, emit func(c12State)) {
 	// rule lists of length 0..2 with their cost
 	var lists [][]c12Rule
 	lists = append(lists, nil)
@@ -567,16 +607,19 @@ func c12SmallStates(sigma []c12Rule, budget int, defaults func(nTiers int) []str
 			}
 		}
 	}
-	var tiers func(total, n, left int, cur []c12Tier, f func([]c12Tier, int))
-	tiers = func(total, n, left int, cur []c12Tier, f func([]c12Tier, int)) {
+	var tiers func(total, n, left, polLeft int, cur []c12Tier, f func([]c12Tier, int))
+	tiers = func(total, n, left, polLeft int, cur []c12Tier, f func([]c12Tier, int)) {
 		if n == 0 {
 			f(cur, left)
 			return
 		}
 		for np := 1; np <= 2; np++ {
+			if np > polLeft-(n-1) {
+				continue
+			}
 			policies(np, left, nil, func(ps []c12Policy, left2 int) {
 				for _, def := range defaults(total) {
-					tiers(total, n-1, left2, append(append([]c12Tier{}, cur...), c12Tier{Default: def, Policies: ps}), f)
+					tiers(total, n-1, left2, polLeft-np, append(append([]c12Tier{}, cur...), c12Tier{Default: def, Policies: ps}), f)
 				}
 			})
 		}
@@ -595,7 +638,7 @@ func c12SmallStates(sigma []c12Rule, budget int, defaults func(nTiers int) []str
 		}
 	}
 	for nt := 0; nt <= 2; nt++ {
-		tiers(nt, nt, budget, nil, func(ts []c12Tier, left int) {
+		tiers(nt, nt, budget, maxPolicies, nil, func(ts []c12Tier, left int) {
 			for np := 0; np <= 2; np++ {
 				profiles(np, left, nil, func(ps [][]c12Rule) {
 					emit(c12State{Tiers: ts, Profiles: ps})
@@ -605,9 +648,15 @@ func c12SmallStates(sigma []c12Rule, budget int, defaults func(nTiers int) []str
 	}
 }
 
-func c12HasTwoPolicyTier(s *c12State) bool {
+func c12TwoEnforcedInOneTier(s *c12State) bool {
 	for _, t := range s.Tiers {
-		if len(t.Policies) >= 2 {
+		n := 0
+		for _, p := range t.Policies {
+			if !p.Staged {
+				n++
+			}
+		}
+		if n >= 2 {
 			return true
 		}
 	}
@@ -616,20 +665,22 @@ func c12HasTwoPolicyTier(s *c12State) bool {
 
 func (k *c12Check) levelB(emit func(*c12Case)) {
 	thorough := k.c.Thorough()
-	var sigma []c12Rule
-	for _, m := range []string{"tcp-dport-80", "src-ipset", "all"} {
-		for _, a := range []string{"allow", "deny", "pass"} {
-			sigma = append(sigma, c12Rule{M: m, A: a})
-		}
+	// quick:    alphabet {tcp-dport-80, all} x {allow,deny,pass}, <= 2 rules in total, <= 2 policies in total
+	// thorough: alphabet {tcp-dport-80, src-ipset, all} x {allow,deny,pass}, <= 2 rules in total, full structure
+	//           (<= 2 tiers x <= 2 policies, <= 2 profiles), then the quick alphabet with <= 3 rules and <= 2 policies
+	type pass struct {
+		matchers    []string
+		budget      int
+		maxPolicies int
 	}
-	budget := 2
+	passes := []pass{{[]string{"tcp-dport-80", "all"}, 2, 2}}
 	if thorough {
-		budget = 3
+		passes = []pass{{[]string{"tcp-dport-80", "src-ipset", "all"}, 2, 4}, {[]string{"tcp-dport-80", "all"}, 3, 2}}
 	}
 	if v := os.Getenv("VERIF_C12_BUDGET"); v != "" {
-		fmt.Sscan(v, &budget)
+		fmt.Sscan(v, &passes[0].budget)
 	}
-	k.c.Extra("levelB_total_rule_budget", budget)
+	k.c.Extra("levelB_passes(matchers,total_rule_budget,max_policies)", fmt.Sprint(passes))
 	pk := map[int][]*c12Pkt{4: c12Domain(4).structurePackets(), 6: c12Domain(6).structurePackets()}
 	defaults := func(nTiers int) []string {
 		if nTiers == 1 || thorough {
@@ -637,37 +688,59 @@ func (k *c12Check) levelB(emit func(*c12Case)) {
 		}
 		return []string{"Deny", "Pass"}
 	}
-	c12SmallStates(sigma, budget, defaults, func(s c12State) {
-		nr := 0
-		for _, t := range s.Tiers {
-			for _, p := range t.Policies {
-				nr += len(p.Rules)
+	seen := map[string]bool{}
+	for pi, ps := range passes {
+		var sigma []c12Rule
+		for _, m := range ps.matchers {
+			for _, a := range []string{"allow", "deny", "pass"} {
+				sigma = append(sigma, c12Rule{M: m, A: a})
 			}
 		}
-		for _, p := range s.Profiles {
-			nr += len(p)
-		}
-		type variant struct {
-			ipv      int
-			dir      string
-			oneGroup bool
-		}
-		vs := []variant{{4, "ingress", false}}
-		if c12HasTwoPolicyTier(&s) {
-			vs = append(vs, variant{4, "ingress", true})
-		}
-		if nr < budget || thorough {
-			vs = append(vs, variant{4, "egress", false})
-		}
-		if thorough && nr < budget {
-			vs = append(vs, variant{6, "ingress", false})
-		}
-		for _, v := range vs {
-			s2 := s
-			s2.IPV, s2.Dir, s2.OneGroup = v.ipv, v.dir, v.oneGroup
-			emit(&c12Case{Level: "B", Class: "structure", State: s2, pkts: pk[v.ipv]})
-		}
-	})
+		c12SmallStates(sigma, ps.budget, ps.maxPolicies, defaults, func(s c12State) {
+			if pi > 0 {
+				// later passes overlap with the earlier ones
+				s0 := s
+				s0.IPV, s0.Dir = 4, "ingress"
+				if seen[s0.sig()] {
+					return
+				}
+			} else if len(passes) > 1 {
+				s0 := s
+				s0.IPV, s0.Dir = 4, "ingress"
+				seen[s0.sig()] = true
+			}
+			nr := 0
+			for _, t := range s.Tiers {
+				for _, p := range t.Policies {
+					nr += len(p.Rules)
+				}
+			}
+			for _, p := range s.Profiles {
+				nr += len(p)
+			}
+			type variant struct {
+				ipv      int
+				dir      string
+				oneGroup bool
+			}
+			vs := []variant{{4, "ingress", false}}
+			if c12TwoEnforcedInOneTier(&s) {
+				// same selector on both policies: the endpoint manager renders a policy-group chain
+				vs = append(vs, variant{4, "ingress", true})
+			}
+			if nr < ps.budget {
+				vs = append(vs, variant{4, "egress", false})
+				if thorough {
+					vs = append(vs, variant{6, "ingress", false})
+				}
+			}
+			for _, v := range vs {
+				s2 := s
+				s2.IPV, s2.Dir, s2.OneGroup = v.ipv, v.dir, v.oneGroup
+				emit(&c12Case{Level: "B", Class: "structure", State: s2, pkts: pk[v.ipv]})
+			}
+		})
+	}
 }
 
 // Level C: saturated shapes. Every policy / profile slot owns one independent "bit" matcher; each slot is filled
@@ -704,9 +777,9 @@ func c12KindRules(spec string, bit int) []c12Rule {
 
 func (k *c12Check) levelC(emit func(*c12Case)) {
 	thorough := k.c.Thorough()
-	kinds := []c12Kind{{false, "a"}, {false, "d"}, {false, "p"}, {false, "-"}, {true, "a"}, {true, "dP"}}
+	allKinds := []c12Kind{{false, "a"}, {false, "d"}, {false, "p"}, {false, "-"}, {true, "a"}, {true, "dP"}}
 	if thorough {
-		kinds = append(kinds, c12Kind{false, "pA"}, c12Kind{false, "dP"}, c12Kind{false, "la"}, c12Kind{false, "aD"})
+		allKinds = append(allKinds, c12Kind{false, "pA"}, c12Kind{false, "dP"}, c12Kind{false, "la"}, c12Kind{false, "aD"})
 	}
 	// tier shapes: number of policies per tier
 	shapes := [][]int{{2}, {1, 1}, {2, 1}, {1, 2}}
@@ -719,6 +792,10 @@ func (k *c12Check) levelC(emit func(*c12Case)) {
 	}
 	defaults := []string{"Deny", "Pass"}
 	for _, shape := range shapes {
+		kinds := allKinds
+		if len(shape) == 2 && shape[0]+shape[1] == 4 {
+			kinds = allKinds[:7]
+		}
 		// slots: tier t policy p -> bit 2*t+p
 		var slots []int
 		for t, n := range shape {
@@ -835,11 +912,21 @@ func TestVerif_C12(t *testing.T) {
 		}
 		k := &c12Check{c: c, lay: map[int]*ebpf.Layout{4: v4, 6: v6}, outcomes: map[string]int64{}}
 
-		c.Rule("states = endpoint policy states (IP sets + policies + profiles + workload endpoint as the calculation graph's proto messages) x direction x IP version, each handed to the four real implementations; " +
-			"level A: every matcher of the common rule domain (protocol by name/number and negated, source/destination nets incl. multi-CIDR, negated and mixed-version lists, port ranges and negations, IP sets and negations, named-port sets, ip-port sets, combinations with <= 2 positive match blocks) x action allow/deny/pass/next-tier/log x 5 contexts (tier ending in deny, tier ending in pass + profile, two-rule policy + second tier, profile + next profile, last profile) x boundary packets (one dimension varied at a time); " +
-			"level B: EVERY state with <= 2 tiers x <= 2 policies (enforced/staged) x <= 2 rules, tier default action Deny/Pass/unset, <= 2 profiles x <= 2 rules, whose total number of rules is within the budget, over the rule alphabet {tcp-dport-80, src-ipset, all} x {allow,deny,pass}, x packets realising every match combination; " +
-			"level C: saturated shapes (2 tiers x 2 policies + 2 profiles, each slot with its own independent matcher and a rule list from a menu incl. two-rule lists and staged policies) x every assignment of the slots' match bits; " +
-			"transitions = executions of one packet on one implementation; non-trivial = states for which both an allowed and a denied packet were observed")
+		ruleA := "level A: every matcher of the common rule domain (protocol by name/number and negated, source/destination nets incl. multi-CIDR, negated and mixed-IP-version lists, port ranges and negations, IP sets and negations incl. members with /25../31 prefixes, named-port sets, ip-port sets, combinations with <= 2 positive match blocks) "
+		ruleB := "level B: EVERY state with <= 2 tiers x <= 2 policies (enforced/staged) x <= 2 rules, <= 2 profiles x <= 2 rules (empty policies/profiles included), policies of a tier in separate policy groups and (two enforced policies) in one group, whose total number of rules is within the budget: "
+		ruleC := "level C: saturated shapes, every policy/profile slot owns an independent matcher (bit0 src IP set, bit1 negated src IP set, bit2 dst CIDR, bit3 tcp dst port, bit4 negated src port range, bit5 dst IP set) and takes a rule list from a menu, x every assignment of the used bits: "
+		if c.Thorough() {
+			ruleA += "x action allow/deny/pass/next-tier/log x 5 placements (tier ending in deny; tier ending in pass + allow-all profile; two-rule policy + second tier; profile + next profile; last profile + deny-all) x ~50 boundary packets (one dimension varied at a time), IPv4 and IPv6, ingress and egress; "
+			ruleB += "(i) <= 2 rules in total over {tcp-dport-80, src-ipset, all} x {allow,deny,pass}, tier default action Deny/Pass/unset, ingress (+ egress and IPv6 for <= 1 rule); (ii) <= 3 rules and <= 2 policies in total over {tcp-dport-80, all} x {allow,deny,pass}; x 5 packets realising every match combination; "
+			ruleC += "tier shapes {2},{1,1},{2,1},{1,2} with 10 kinds per slot (allow, deny, pass, empty, staged allow, staged deny+pass-all, pass+allow-all, deny+pass-all, log-all+allow, allow+deny-all) and {2,2} with the first 7, x tier default actions Deny/Pass x 5 profile menus; "
+		} else {
+			ruleA += "x action allow/deny/pass (next-tier/log for two matchers) x 3 placements (tier ending in deny; tier ending in pass + allow-all profile; profile + next profile; all 5 placements for two matchers) x ~30 boundary packets, IPv4 (ingress; egress for the first placement) and, for the IP-version-sensitive families, IPv6 ingress; "
+			ruleB += "<= 2 rules and <= 2 policies in total over {tcp-dport-80, all} x {allow,deny,pass}, tier default action Deny/Pass (and unset for one-tier states), ingress (+ egress for <= 1 rule), x 5 packets; "
+			ruleC += "tier shapes {2},{1,1},{2,1},{1,2} with 6 kinds per slot (allow, deny, pass, empty, staged allow, staged deny+pass-all) x tier default actions Deny/Pass x 3 profile menus; "
+		}
+		c.Rule("states = endpoint policy states (IP sets + policies + profiles + workload endpoint as the calculation graph's proto messages) x direction x IP version, each built on the four real implementations; " +
+			ruleA + ruleB + ruleC +
+			"transitions = executions of one packet on one implementation (netfilter twice: clean mark / garbage mark); non-trivial = states for which both an allowed and a denied packet were observed")
 		c.Assume("iptables/nftables verdict = what the rendered workload endpoint chain (cali-tw-/cali-fw-<iface>) does to a NEW-connection packet, for two initial marks (clean / garbage in the accept, pass and scratch bits); kernel IP sets are abstract membership tags computed from the set contents")
 		c.Assume("BPF verdict = allow/deny tail call taken by the policy program (+ pol_rc), the rest of the BPF C dataplane is not involved; IP sets are real LPM-trie entries written with the real encoders")
 		c.Assume("app-policy verdict = status of ALPCheckProvider.Check (ingress TCP/UDP) and the last rule of checker.Evaluate(EnforcedOnly) (allow iff it is an allow rule); IP set members reach the store in the form the policy-sync server sends them")
